@@ -509,8 +509,12 @@ def _w7_crystals(prog, res):
     ops = {(dotted(tot[0].value.left) or '').split('.')[-1],
            (dotted(tot[0].value.right) or '').split('.')[-1]}
     ok_tot = ops == {'num_lattices', 'lattice_rank'}
-  ok_len = any(norm_text(a.test).replace(' ', '') ==
-               'len(add_list)==total_feature_use' for a in asserts)
+  ok_len = any(
+      isinstance(a.test, ast.Compare) and len(a.test.ops) == 1 and
+      isinstance(a.test.ops[0], ast.Eq) and
+      {norm_text(a.test.left).replace(' ', ''),
+       norm_text(a.test.comparators[0]).replace(' ', '')} ==
+      {'len(add_list)', 'total_feature_use'} for a in asserts)
   feeds = isinstance(loop, ast.For) and False
   for n in ast.walk(fn.node):
     if isinstance(n, ast.For) and dotted(n.iter) == 'add_list' and dotted(
